@@ -149,4 +149,4 @@ def run_shard(col, cfg):
             classes.append("output-change-without-command-or-pause(counted, not judged)")
         col.record(case, nontrivial, classes=classes, violations=vs,
                    sample={"method": rinfo["lines"], "steps": case["steps"][:30]})
-    hyp_run(S.cases(cfg=CFG, with_boom=True, templates=True), body, max(1, cfg["examples"] // col.nshards), shard_seed(col.seed, col.shard), col)
+    hyp_run(S.cases(cfg=CFG, with_boom=True, templates=True, faults=True), body, max(1, cfg["examples"] // col.nshards), shard_seed(col.seed, col.shard), col)
